@@ -28,7 +28,7 @@ def clock_obligations(R, P, p, label):
         if nows and p.ok:
             w = p.writes('/ds/latest_known_time.json')
             R.obligation(f'{label}: the sampled time is recorded as latest-known-time',
-                         p.pc, z3.BoolVal(len(w) >= 1 and isinstance(w[-1][2], Obj) and w[-1][2].kind == 'json' and z3.is_bv(w[-1][2].d['val']) and z3.eq(w[-1][2].d['val'], nows[-1])),
+                         p.pc, z3.BoolVal(len(w) >= 1 and isinstance(w[-1][2], Obj) and w[-1][2].kind == 'json' and z3.is_expr(w[-1][2].d['val']) and z3.eq(w[-1][2].d['val'], nows[-1])),
                          group=label + '/time-recorded')
 
 def check(R, tier):
@@ -55,7 +55,7 @@ def check(R, tier):
                 R.obligation(f'{label}: Ok => returned document is the served one', p.pc, doc_id(p.payload) == P.served, group=label + '/returns-served')
             if p.cls == 'Err:ExpiredMetadata':
                 R.obligation(f'{label}: ExpiredMetadata only under Safe and only if now > expires', p.pc,
-                             z3.And(P.safe, nows[-1] > Exp(P.served)), group=label + '/expired-err-justified')
+                             z3.And(P.safe, nows[-1] >= Exp(P.served)), group=label + '/expired-err-justified')
                 R.obligation(f'{label}: ExpiredMetadata names role {role}', p.pc, z3.BoolVal(role_of_error(p.payload) == RT.index(role)), group=label + '/expired-role')
                 R.obligation(f'{label}: an expired document is not persisted', p.pc, z3.BoolVal(not [e for e in p.events if e[0] == 'fs.write' and not e[1].endswith('latest_known_time.json')]),
                              group=label + '/expired-not-stored')
@@ -99,7 +99,7 @@ def check(R, tier):
                 acc = z3.And(V(cur, P.hop[i]), V(P.hop[i], P.hop[i]), z3.ULT(Ver(cur), Ver(P.hop[i])))
                 cur = z3.If(acc, P.hop[i], cur)
             R.obligation('load_root: ExpiredMetadata only under Safe, only for the final root, only if now > its expires', p.pc,
-                         z3.And(P.safe, judged == Exp(cur), nows[-1] > Exp(cur)), group='load_root/expired-err-justified')
+                         z3.And(P.safe, judged == Exp(cur), nows[-1] >= Exp(cur)), group='load_root/expired-err-justified')
             R.obligation('load_root: ExpiredMetadata names role Root', p.pc, z3.BoolVal(role_of_error(p.payload) == RT.index('Root')), group='load_root/expired-role')
         clock_obligations(R, P, p, 'load_root')
         if p.cls in ('Err:ExpiredMetadata', 'Err:SystemTimeSteppedBackward'):
@@ -159,3 +159,93 @@ def check(R, tier):
             R.obligation('read_target: with enforcement off neither expiry nor the clock guard fails', p.pc, P.safe, group='read_target/unsafe-never-expired')
     R.reach('read_target: ExpiredMetadata reachable', next((p.pc for p in rp if p.cls == 'Err:ExpiredMetadata'), [z3.BoolVal(False)]))
     R.reach('read_target: Ok with a stream reachable', next((p.pc for p in rp if p.ok and p.ev('fetch_target')), [z3.BoolVal(False)]))
+    finalize(R)
+
+# ---------------------------------------------------------------- native replay of counterexamples
+def base_scenario():
+    return {'nkeys': 5, 'roots': [
+        {'version': 1, 'consistent': False, 'table': [0, 1, 2, 3], 'signers': [0], 'expires': 86400 * 30,
+         'roles': {'root': {'keys': [0], 'thr': 1}, 'timestamp': {'keys': [1], 'thr': 1}, 'snapshot': {'keys': [2], 'thr': 1}, 'targets': {'keys': [3], 'thr': 1}}},
+        {'version': 2, 'consistent': False, 'table': [0, 1, 2, 3], 'signers': [0], 'expires': 86400 * 30,
+         'roles': {'root': {'keys': [0], 'thr': 1}, 'timestamp': {'keys': [1], 'thr': 1}, 'snapshot': {'keys': [2], 'thr': 1}, 'targets': {'keys': [3], 'thr': 1}}}]}
+def cyc(**kw):
+    c = {'shipped': 0, 'serve_roots': {}, 'safe': True, 'timestamp': {'version': 1, 'signers': [1], 'expires': 86400}, 'snapshot': {'version': 1, 'signers': [2], 'expires': 86400},
+         'targets': {'version': 1, 'signers': [3], 'expires': 86400}}
+    c.update(kw); return c
+
+def recipes(group):
+    """group of a violated obligation -> list of (description, scenario, expectation(real) -> violated?)"""
+    fn, _, kind = group.partition('/')
+    role = {'load_timestamp': 'timestamp', 'load_snapshot': 'snapshot', 'load_targets': 'targets', 'load_root': 'root'}.get(fn)
+    out = []
+    if kind in ('backward-no-write', 'backward-guard', 'backward-err-justified'):
+        sc = base_scenario(); sc['cycles'] = [cyc(pre=[{'op': 'write_time', 'offset': 2 * 86400}]), cyc()]
+        out.append(('stored latest-known-time two days ahead of the clock; the operation and its retry must both fail with SystemTimeSteppedBackward', sc,
+                    lambda r: any(c['ok'] or c.get('err') != 'SystemTimeSteppedBackward' for c in r['cycles'])))
+        sc2 = base_scenario(); sc2['cycles'] = [cyc(read_target_after_ms=1), cyc(pre=[{'op': 'write_time', 'offset': 2 * 86400}]), cyc()]
+    if kind in ('ok-not-expired', 'ok-final-not-expired', 'one-judgement') and role:
+        sc = base_scenario()
+        c = cyc()
+        if role == 'root':
+            sc['roots'][1]['expires'] = -3600; c['serve_roots'] = {'2': 1}
+        else:
+            c[role]['expires'] = -3600
+        sc['cycles'] = [c]
+        out.append((f'{role} metadata expired an hour ago, enforcement on: the cycle must fail', sc, lambda r: r['cycles'][0]['ok']))
+    if kind in ('expired-err-justified',) and role:
+        sc = base_scenario(); c = cyc()
+        if role == 'root':
+            sc['roots'][0]['expires'] = -3600; c['serve_roots'] = {'2': 1}     # expired stepping stone, valid final root
+        sc['cycles'] = [c]
+        out.append((f'nothing that matters is expired ({"only the intermediate root is" if role == "root" else "all expire tomorrow"}): the cycle must not fail as expired', sc,
+                    lambda r: (not r['cycles'][0]['ok']) and r['cycles'][0].get('err') == 'ExpiredMetadata'))
+    if kind == 'unsafe-never-expired' and role:
+        sc = base_scenario(); c = cyc(safe=False)
+        if role == 'root': sc['roots'][0]['expires'] = -3600
+        else: c[role]['expires'] = -3600
+        sc['cycles'] = [c, cyc(safe=False, pre=[{'op': 'write_time', 'offset': 2 * 86400}])]
+        out.append((f'enforcement off with expired {role} metadata and a stored future time: both cycles must succeed', sc, lambda r: not all(c['ok'] for c in r['cycles'])))
+    if fn == 'read_target':
+        sc = base_scenario(); c = cyc(read_target_after_ms=2500); c['timestamp']['expires'] = 2
+        sc['cycles'] = [c]
+        if kind in ('ok-not-expired', 'check-first'):
+            out.append(('timestamp expires 2 s after load; read_target 2.5 s later must fail with ExpiredMetadata', sc, lambda r: r['cycles'][0].get('read_target') != 'ExpiredMetadata'))
+        if kind in ('expired-err-justified',):
+            sc3 = base_scenario(); sc3['cycles'] = [cyc(read_target_after_ms=10)]
+            out.append(('nothing expired: read_target must not fail as expired', sc3, lambda r: r['cycles'][0].get('read_target') == 'ExpiredMetadata'))
+        if kind == 'unsafe-never-expired':
+            c2 = cyc(read_target_after_ms=2500, safe=False); c2['timestamp']['expires'] = 2
+            sc4 = base_scenario(); sc4['cycles'] = [c2]
+            out.append(('enforcement off: read_target after expiry must not fail as expired', sc4, lambda r: r['cycles'][0].get('read_target') == 'ExpiredMetadata'))
+    if fn == 'wiring':
+        if kind in ('enforcement-passed', 'enforcement-kept'):
+            for role in ('timestamp', 'snapshot', 'targets'):
+                sc = base_scenario(); c = cyc(); c[role]['expires'] = -3600; sc['cycles'] = [c]
+                out.append((f'default enforcement, expired {role}: must fail', sc, lambda r: r['cycles'][0]['ok']))
+            for role in ('timestamp', 'snapshot', 'targets'):
+                sc = base_scenario(); c = cyc(safe=False); c[role]['expires'] = -3600; sc['cycles'] = [c]
+                out.append((f'enforcement off, expired {role}: must load', sc, lambda r: not r['cycles'][0]['ok']))
+        if kind in ('earliest-is-min', 'earliest-role'):
+            for role in ('timestamp', 'snapshot', 'targets'):
+                sc = base_scenario(); c = cyc(read_target_after_ms=2500); c[role]['expires'] = 2; sc['cycles'] = [c]
+                out.append((f'{role} is the earliest to expire (2 s after load); read_target 2.5 s later must fail', sc, lambda r: r['cycles'][0].get('read_target') != 'ExpiredMetadata'))
+    return out
+
+def finalize(R):
+    groups = {}
+    for cx in R.counterexamples: groups.setdefault(cx['group'], cx)
+    for g, cx in groups.items():
+        rec = recipes(g)
+        hit = False
+        for desc, sc, violated in rec:
+            real = R.replay('history', sc, timeout=60)
+            if violated(real):
+                hit = True
+                R.report_violation(f'{desc} — observed: ' + str([{k: c.get(k) for k in ('ok', 'err', 'read_target')} for c in real['cycles']]), sc); break
+        if not hit:
+            R.inconclusive.append(f'solver counterexample for "{cx["obligation"]}" ({g}) ' + ('did not reproduce with the native recipes' if rec else 'has no native replay recipe') + f': {str(cx.get("model"))[:200]}')
+    R.counterexamples_handled = True
+
+def replay_file(R, path):
+    import json
+    sc = json.load(open(path))['scenario']; print(json.dumps(R.replay('history', sc))); return 0
